@@ -1,4 +1,5 @@
 """C12 - consumers exist exactly while they hold allocations."""
+import json
 from pv import histrun, monitors
 from pv.client import Req
 from pv.gen.failplace import FailPlace
@@ -16,7 +17,7 @@ META = {
             'transition in {create, update, empty, empty-new, delete, '
             'rejected-first})',
     'floors': {'attribute_checks': 100, 'rejected_first_writes': 5,
-               'null_generation_probes': 5},
+               'null_generation_probes_accepted': 5},
     'assumptions': ['SQLite backend', 'sequential requests',
                     'a write below 1.8 to an existing consumer may keep or '
                     'replace project/user by the placeholders (both '
@@ -79,7 +80,15 @@ def run_shard(spec, res):
                                         body, tag={'op': 'null-gen-probe'}))
                 svc.app.restore(snap)
                 res_.count('null_generation_probes')
-                if r.status != 204:
+                detail = json.dumps(r.json) if r.json else ''
+                if r.status == 204:
+                    res_.count('null_generation_probes_accepted')
+                elif 'consumer generation conflict' not in detail and \
+                        'placement.concurrent_update' not in detail:
+                    # refused for a reason that has nothing to do with the
+                    # consumer (the probe's amounts did not fit): no verdict
+                    res_.count('null_generation_probes_unrelated_refusal')
+                else:
                     prev = 'rejected' if step.resp.status >= 400 else \
                         'emptied'
                     res_.violation(
